@@ -633,16 +633,32 @@ class SimPopen(_InfoMixin):
         p.marker = k.pending_marker
         self.pid = p.pid
         self.args = args
-        if stdout == PIPE:
-            r, w = os.pipe()
-            os.set_blocking(w, False)
-            p.stdout_w = PipeEnd(w).acquire()
-            self.stdout = os.fdopen(r, 'rb', 0)
-        if stderr == PIPE:
-            r, w = os.pipe()
-            os.set_blocking(w, False)
-            p.stderr_w = PipeEnd(w).acquire()
-            self.stderr = os.fdopen(r, 'rb', 0)
+        # the read ends are blocking in reality (subprocess.PIPE); here they
+        # are non-blocking so that a read on an empty pipe - which would hang
+        # the real daemon - surfaces as EAGAIN and can be reported
+        # subprocess creates both pipes, forks, then closes the write ends in
+        # the parent: the simulated worker's write ends are moved out of the
+        # way (high numbers) so that descriptor numbers are reused in the
+        # daemon exactly as they would be in production
+        pipes = []
+        for want in (stdout, stderr):
+            pipes.append(os.pipe() if want == PIPE else None)
+        ends = []
+        for pr in pipes:
+            if pr is None:
+                ends.append((None, None))
+                continue
+            r, w = pr
+            w2 = _move_high(w)
+            os.set_blocking(w2, False)
+            os.set_blocking(r, False)
+            ends.append((r, w2))
+        if ends[0][0] is not None:
+            p.stdout_w = PipeEnd(ends[0][1]).acquire()
+            self.stdout = os.fdopen(ends[0][0], 'rb', 0)
+        if ends[1][0] is not None:
+            p.stderr_w = PipeEnd(ends[1][1]).acquire()
+            self.stderr = os.fdopen(ends[1][0], 'rb', 0)
         if k.want_fdtable:
             p.fdtable = compute_fdtable(kw)
         k.spawns.append(p)
@@ -743,6 +759,24 @@ class SimPopen(_InfoMixin):
         k = self.kernel
         k.sim.boundary('children')
         return _children(k, self.pid, recursive)
+
+
+def _move_high(fd, floor=[None]):
+    """dup fd to a high descriptor number and close the original"""
+    import fcntl
+    if floor[0] is None:
+        try:
+            import resource
+            soft = resource.getrlimit(resource.RLIMIT_NOFILE)[0]
+        except Exception:
+            soft = 1024
+        floor[0] = max(64, min(soft // 2, 4096))
+    try:
+        new = fcntl.fcntl(fd, fcntl.F_DUPFD_CLOEXEC, floor[0])
+    except OSError:
+        return fd
+    os.close(fd)
+    return new
 
 
 def make_popen(kernel):
